@@ -271,7 +271,7 @@ std::string tmp_dir() {
   static std::string d;
   if (d.empty()) {
     const char* base = getenv("VERIF_TMP"); std::string b = base && *base ? base : "/tmp";
-    char buf[512]; snprintf(buf, sizeof buf, "%s/yrsim.%d.XXXXXX", b.c_str(), (int) getpid());
+    char buf[512]; snprintf(buf, sizeof buf, "%s/yrsim.%07d.XXXXXX", b.c_str(), (int) getpid());   // fixed length: path lengths decide loop counts in instrumented code
     if (!mkdtemp(buf)) { perror("mkdtemp"); abort(); }
     d = buf;
   }
